@@ -115,11 +115,13 @@ def compile_rust(items):
             rc, out = C.run(["cargo", "check", "--offline", "--lib", "--message-format=short"], cwd=root, env=env, timeout=3000)
         if rc == 0:
             return bad, None
-        failing = sorted(set(int(m) for m in re.findall(r"src/m(\d+)\.rs", out)), reverse=True)
+        # (only `error` lines name a module that does not compile: a warning in another module of the same crate — e.g.
+        #  `unused_comparisons`, which `allow(unused)` does not cover — says nothing about that module)
+        failing = sorted(set(int(m) for m in re.findall(r"src/m(\d+)\.rs:\d+:\d+: error", out)), reverse=True)
         if not failing:
             return bad, out[-2000:]
         for n in failing:
-            errs = [l for l in out.splitlines() if ("src/m%d.rs" % n) in l][:6]
+            errs = [l for l in out.splitlines() if ("src/m%d.rs" % n) in l and ": error" in l][:6]
             bad[live[n][0]] = {"errors": errs, "code": (re.findall(r"error\[(E\d+)\]", " ".join(errs)) or ["?"])[0]}
             live.pop(n)
     return bad, None
